@@ -80,9 +80,12 @@ Definition dec_ver (s : sexp) : option (nv * verrec) :=
 Definition dec_lock_entry (s : sexp) : option (nv * N) :=
   match s with L [A p; A v; A c] => Some ((p, v), c) | _ => None end.
 
-Definition dec_jworld (s : sexp) : option jworld :=
+Definition dec_seed (s : sexp) : option (N * nv) :=
+  match s with L [A r; A p; A v] => Some (r, (p, v)) | _ => None end.
+
+Definition dec_jworld_seeded (s seeds : sexp) : option jworld :=
   match s with
-  | L [cls; use; only; pkgs; vers; mt; lp; lr; http; A mc; A mr] =>
+  | L (cls :: use :: only :: pkgs :: vers :: mt :: lp :: lr :: http :: A mc :: A mr :: _) =>
       do c <- as_list_of dec_cls cls;
       do u <- as_list_of (as_pair as_atom dec_resp) use;
       do o <- as_list_of (as_pair as_atom dec_resp) only;
@@ -92,9 +95,18 @@ Definition dec_jworld (s : sexp) : option jworld :=
       do l <- as_option (as_list_of dec_lock_entry) lp;
       do r <- as_list_of (as_pair as_atom as_atom) lr;
       do h <- as_atoms http;
+      do sd <- as_list_of dec_seed seeds;
       Some {| jw_cls := c; jw_use := u; jw_only := o; jw_pkgs := p; jw_vers := v; jw_match := m;
               jw_lock_pkg := l; jw_lock_remote := r; jw_http := h; jw_missing_chk := mc;
-              jw_max_redirects := N.to_nat mr |}
+              jw_max_redirects := N.to_nat mr; jw_seed := sd |}
+  | _ => None
+  end.
+
+(* worlds written before lockfile seeding was modelled have eleven fields: no seeds *)
+Definition dec_jworld (s : sexp) : option jworld :=
+  match s with
+  | L [_; _; _; _; _; _; _; _; _; _; _] => dec_jworld_seeded s (L [])
+  | L [_; _; _; _; _; _; _; _; _; _; _; seeds] => dec_jworld_seeded s seeds
   | _ => None
   end.
 
@@ -201,20 +213,42 @@ Definition c01_judgement (W : jworld) (g : jgraph) (roots : list spec) : list se
   else if orphan_free_gen W g roots true true then [judge false; L [A CLASSTAG; A 101; A 102]]
   else [judge false].
 
-Definition run_jsr_gen (with_c01_judge : bool) (s : sexp) : sexp :=
+(* ---------- C06 judgement at graph level: lockfile-seeded selections are honoured ----------
+   every requirement ends up mapped to a version that is not below the highest lockfile-seeded version
+   of its package that satisfies it (the seeds are selected from the start, so "the highest version
+   already selected that satisfies it" can never be lower). Class 602: the build restarted
+   (Builder::restart makes a new graph: the seeds are gone). *)
+Definition seed_respected (W : jworld) (e : N * nv) : bool :=
+  match best_match W (fst e) (seeded_versions W (fst (snd e))) None with
+  | Some m => negb (N.ltb (snd (snd e)) m)
+  | None => true
+  end.
+(* the requirements this build resolved: those of the jsr specifiers it recorded a redirect for
+   (a lockfile entry that no specifier asked for stays in the table as the lockfile wrote it) *)
+Definition resolved_reqs (W : jworld) (g : jgraph) : list N :=
+  flat_map (fun r => match cls_of W (fst r) with CJsr _ req _ => [req] | _ => [] end) (jg_redirects g).
+Definition c06_judgement (W : jworld) (g : jgraph) (roots : list spec) : list sexp :=
+  let rs := resolved_reqs W g in
+  if forallb (seed_respected W) (filter (fun e => mem (fst e) rs) (pt_map (jg_pkgs g))) then [judge true]
+  else if jg_restarted g then [judge false; L [A CLASSTAG; A 602]]
+  else [judge false].
+
+Definition run_jsr_judged (judgement : jworld -> jgraph -> list spec -> list sexp) (s : sexp) : sexp :=
   match s with
   | L [A _; w; L [pc]; roots] =>
       match dec_jworld w, as_bool pc, as_atoms roots with
       | Some W, Some p, Some rs =>
           if negb (wf_jworld W) then L [A 434343] else
           match jbuild W {| jo_prefer_cached := p |} rs with
-          | Some g => L (enc_jgraph g :: (if with_c01_judge then c01_judgement W g rs else []))
+          | Some g => L (enc_jgraph g :: judgement W g rs)
           | None => L [A 424242]
           end
       | _, _, _ => decode_error
       end
   | _ => decode_error
   end.
+Definition run_jsr_gen (with_c01_judge : bool) : sexp -> sexp :=
+  run_jsr_judged (fun W g rs => if with_c01_judge then c01_judgement W g rs else []).
 
 Definition run_jsr : sexp -> sexp := run_jsr_gen false.
 
@@ -231,3 +265,6 @@ Definition with_jsr (f : sexp -> sexp) (s : sexp) : sexp :=
 (* the C01 stream also judges "nothing unreachable is present" on registry graphs *)
 Definition with_jsr_c01 (f : sexp -> sexp) (s : sexp) : sexp :=
   if is_jsr_case s then run_jsr_gen true s else if is_rel_case s then L [] else f s.
+(* the C06 stream also judges that lockfile-seeded selections are honoured *)
+Definition with_jsr_c06 (f : sexp -> sexp) (s : sexp) : sexp :=
+  if is_jsr_case s then run_jsr_judged c06_judgement s else if is_rel_case s then L [] else f s.
